@@ -31,6 +31,8 @@ class Env:
         self.resources = {"res.txt": b"RES-TEXT", "dir/n.json": b"42", "dir/sub/b.bin": b"\x00\x01bin"}
         for k, v in self.resources.items():
             self.store.store(k, v, {})
+        # a key that is known to the store (it has metadata) but whose data can not be obtained
+        self.store.store_metadata("dir/metaonly.txt", {"status": "recipe", "title": "never produced"})
         set_store(self.store)
         S._vars = copy.deepcopy(default_vars or {})
         self.default_vars = copy.deepcopy(default_vars or {})
